@@ -847,7 +847,11 @@ func parseTags(text string, basePos Position) []ast.Tag {
 			continue
 		}
 
-		name := strings.TrimSpace(trimmed[:colonIdx])
+		// the name is the word the colon is attached to; text may stand before
+		// it in the same piece ("paid by card receipt:123"), a blank before the
+		// colon means there is no tag ("lunch : pizza")
+		wordStart := strings.LastIndexAny(trimmed[:colonIdx], " \t") + 1
+		name := trimmed[wordStart:colonIdx]
 		if name == "" || !isValidTagName(name) {
 			continue
 		}
@@ -857,9 +861,9 @@ func parseTags(text string, basePos Position) []ast.Tag {
 			value = strings.TrimSpace(trimmed[colonIdx+1:])
 		}
 
-		// the name opens the piece (after its leading blanks); the colon follows it
-		tagStart := partStart + len(part) - len(strings.TrimLeftFunc(part, unicode.IsSpace))
-		tagEnd := tagStart + colonIdx + 1
+		// the piece's leading blanks, then the text before the name, then "name:"
+		tagStart := partStart + len(part) - len(strings.TrimLeftFunc(part, unicode.IsSpace)) + wordStart
+		tagEnd := tagStart + len(name) + 1
 		if value != "" {
 			valueStart := strings.Index(text[tagEnd:partStart+len(part)], value)
 			if valueStart != -1 {
